@@ -54,7 +54,7 @@ Proof.
       replace (N.even (2 * N.of_nat c)) with true by (rewrite N.even_mul; reflexivity).
       replace ((2 * N.of_nat c / 2) mod 2^32)%N with (N.of_nat c)
         by (change (2^32)%N with 4294967296%N; lia).
-      rewrite Nat2N.id.
+      replace (N.to_nat (N.min (N.of_nat n) (N.of_nat c))) with (Nat.min n c) by lia.
       rewrite app_length, le_bytes_length.
       destruct (Nat.ltb_spec (vbytes w + length (flat_map (ser w) runs)) (vbytes w)); [lia|].
       rewrite firstn_app, le_bytes_length, Nat.sub_diag, firstn_O, app_nil_r.
@@ -72,7 +72,6 @@ Proof.
         by (rewrite N.add_comm, N.even_add_mul_2; reflexivity).
       replace (((2 * N.of_nat g + 1) / 2 * 8) mod 2^32)%N with (N.of_nat (8 * g))
         by (change (2^32)%N with 4294967296%N; lia).
-      rewrite Nat2N.id.
       set (payload := bits_bytes (g * w) (pack w vs)).
       set (tl := flat_map (ser w) runs).
       assert (Hpl : length payload = (g * w)%nat) by apply bits_bytes_length.
@@ -83,17 +82,21 @@ Proof.
       assert (Hav : (8 * g <= avail)%nat).
       { unfold avail. destruct (Nat.eqb_spec w 0); [lia|]. rewrite app_length, Hpl.
         apply Nat.div_le_lower_bound; [lia|]. nia. }
-      replace (Nat.min (Nat.min n (8 * g)) avail) with (Nat.min n (8 * g)) by lia.
+      assert (EavN : (if (w =? 0)%nat then N.of_nat (8 * g) else N.of_nat (8 * length (payload ++ tl) / w)) = N.of_nat avail)
+        by (unfold avail; destruct (w =? 0)%nat; reflexivity).
+      rewrite EavN.
+      assert (EkN : N.min (N.min (N.of_nat n) (N.of_nat (8 * g))) (N.of_nat avail) = N.of_nat (Nat.min n (8 * g))) by lia.
+      rewrite EkN. rewrite Nat2N.id.
       destruct (Nat.eqb_spec (Nat.min n (8 * g)) 0); [lia|].
       rewrite Hbits. rewrite unpack_firstn by (try exact Hv; lia).
-      destruct (Nat.ltb_spec (Nat.min n (8 * g)) (8 * g)) as [Hlt|Hge].
+      destruct (N.ltb_spec (N.of_nat (Nat.min n (8 * g))) (N.of_nat (8 * g))) as [Hlt|Hge].
       * (* the request ends inside this run *)
         assert (E0 : (n - Nat.min n (8 * g) = 0)%nat) by lia. rewrite E0.
         assert (Hz : forall f bs, rle_decode_aux f w 0 bs = Some []) by (intros [|f] bs; reflexivity).
         rewrite Hz. rewrite app_nil_r.
         rewrite firstn_app. replace (n - length vs)%nat with 0%nat by lia. rewrite firstn_O, app_nil_r.
         f_equal. f_equal. lia.
-      * assert (Eg : (8 * g / 8 = g)%nat) by (rewrite Nat.mul_comm; apply Nat.div_mul; lia). rewrite Eg.
+      * assert (Eg : N.to_nat (N.of_nat (8 * g) / 8) = g) by lia. rewrite Eg.
         rewrite skipn_app, Hpl, Nat.sub_diag, skipn_O.
         rewrite skipn_all2 by lia. cbn [app]. unfold tl.
         rewrite IH by (try assumption; lia).
